@@ -805,8 +805,10 @@ pub fn write_evidence(
     replays: &[String],
     known: &[String],
 ) {
+    // counters named info_* are expected to stay at zero on a correct tree (they count things the
+    // statements do not forbid); every other counter at zero is a probe that the workload never reached
     let zero_probes: Vec<&String> =
-        agg.counters.iter().filter(|(_, v)| **v == 0).map(|(k, _)| k).collect();
+        agg.counters.iter().filter(|(k, v)| **v == 0 && !k.starts_with("info_")).map(|(k, _)| k).collect();
     let per_hour = |n: u64| if wall > 0.0 { (n as f64 / wall * 3600.0) as u64 } else { 0 };
     let doc = json!({
         "property_id": e.id(),
